@@ -401,7 +401,7 @@ class CallMixin:
         meth = f.attr
         # module / class qualified: nx.descendants, Header.make_x, Equation.__get_term_ranks
         if isinstance(f.value, ast.Name) and f.value.id not in st.env:
-            q = f.value.id
+            q = (self.con.get("aliases") or {}).get(f.value.id, f.value.id)
             if q in uni.obj_classes or q in uni.bases or q in uni.modules:
                 m = meth
                 if m.startswith("__") and not m.endswith("__"):
@@ -593,7 +593,8 @@ class CallMixin:
         rel = con.get("module") or self.uni.modules.get(cname)
         if rel is None:
             raise OutOfSubset("contract %s: no module/params given" % key)
-        fn = extract.module(rel).func(key if cname else mname)
+        real = self.uni.class_alias.get(cname, cname)
+        fn = extract.module(rel).func((real + "." + mname) if cname else mname)
         params = [a.arg for a in fn.args.args]
         kinds = {a.arg: kind_of_annotation(a.annotation, self.uni) for a in fn.args.args}
         nd = len(fn.args.defaults)
@@ -676,6 +677,16 @@ class CallMixin:
                 self.oblige("%s/pre[%s]" % (label, name), st, f, line, kind="pre")
                 st.assume(self.formula(src, st, Ctx(spec=True), env, pol=-1))
         # 2. exceptional behaviour
+        for exc, src in (con.get("raises_if") or {}).items():
+            # violation => raises; otherwise it may or may not raise
+            c0_ = self.formula(src, st, Ctx(spec=True), env)
+            may = fresh("may_raise", BoolS)
+            c = z3.Or(c0_, may)
+            if not cx.spec:
+                es = st.fork()
+                es.assume(c)
+                self.exits.append(Exit("raise", es, exc=exc, line=line))
+            st.assume(z3.Not(c))
         for exc, src in (con.get("raises") or {}).items():
             if src is None:
                 c = fresh("may_raise", BoolS)
